@@ -1,6 +1,7 @@
 import Wayfind.Proofs.Reachable
 import Wayfind.Spec.Grammar
 import Wayfind.Generated.Facts
+import Wayfind.Proofs.Oci6
 
 /-! # C17 — the OCI example routes every distribution-spec endpoint to its handler
 Generated obligations (the route table and the name pattern are re-extracted from `examples/oci/src` on every run):
@@ -11,9 +12,20 @@ distribution specification's repository-name grammar anchored with `^…$`.
 General theorems instantiated: the OCI routers are reachable states, so C01–C03 hold on them — every match is genuine
 (the name is accepted by the constraint, the last parameter is a '/'-free non-empty run, the values rebuild the URL),
 every URL some route fits is routed, and the winner is the documented walk's.
-Status: **partial** — that the reading of an endpoint URL is *unique* (so that the genuine match is the expected one)
-and that the `regex` crate implements the pattern are tied by the `oci` suite: every name up to the tier's length over
-`a 0 . _ - / A` × every shape × methods × trailing slash, against an independent hand-written recogniser. -/
+**The routing theorem** (`C17_endpoint_resolves`, from `oci_resolves`): on any router reached through the API whose live
+templates are templates the example registers under one HTTP method, every URL of the form `/v2`,
+`/v2/<name>/blobs/<digest>`, `/v2/<name>/manifests/<reference>`, `/v2/<name>/tags/list`, `/v2/<name>/blobs/uploads`,
+`/v2/<name>/blobs/uploads/<reference>`, with or without a trailing slash, resolves to the live template of that shape —
+reporting its expansion, its data (the handler) and exactly `name = <name>` and the last parameter — **for every name the
+constraint accepts, of any length and any number of segments**, and every non-empty '/'-free last parameter. The proof
+shows that the reading of the URL is unique: a path that an expansion fits has a fixed pattern of '/'-separated segments
+counted from the end (`fits_opat`), the patterns of different templates differ in a literal segment (`opat_inj`; the one
+exception, `/v2/<name>/blobs/uploads` read as a blob with digest `uploads`, is excluded because the table registers the
+two under different methods — generated obligation `C17_methods_do_not_clash`), and a unique fit is what `search` returns
+(`search_unique_fit`, from C01–C03). `C17_get_router_exists` builds the GET router through the API (non-vacuity).
+Status: **partial** only in what no model can carry — that the `regex` crate implements the pattern (the theorem
+quantifies over names the constraint accepts; that the constraint accepts exactly the spec's grammar is tied by the `oci`
+suite against an independent hand-written recogniser over every name up to the tier's length over `a 0 . _ - / A`). -/
 
 theorem C17_route_table : Generated.ociRoutes = [([71, 69, 84], [47, 118, 50, 40, 47, 41], [104, 97, 110, 100, 108, 101, 95, 114, 111, 111, 116, 95, 103, 101, 116]), ([71, 69, 84], [47, 118, 50, 47, 123, 42, 110, 97, 109, 101, 58, 110, 97, 109, 101, 125, 47, 98, 108, 111, 98, 115, 47, 123, 100, 105, 103, 101, 115, 116, 125, 40, 47, 41], [104, 97, 110, 100, 108, 101, 95, 98, 108, 111, 98, 95, 112, 117, 108, 108]), ([72, 69, 65, 68], [47, 118, 50, 47, 123, 42, 110, 97, 109, 101, 58, 110, 97, 109, 101, 125, 47, 98, 108, 111, 98, 115, 47, 123, 100, 105, 103, 101, 115, 116, 125, 40, 47, 41], [104, 97, 110, 100, 108, 101, 95, 98, 108, 111, 98, 95, 112, 117, 108, 108]), ([71, 69, 84], [47, 118, 50, 47, 123, 42, 110, 97, 109, 101, 58, 110, 97, 109, 101, 125, 47, 109, 97, 110, 105, 102, 101, 115, 116, 115, 47, 123, 114, 101, 102, 101, 114, 101, 110, 99, 101, 125, 40, 47, 41], [104, 97, 110, 100, 108, 101, 95, 109, 97, 110, 105, 102, 101, 115, 116, 95, 112, 117, 108, 108]), ([72, 69, 65, 68], [47, 118, 50, 47, 123, 42, 110, 97, 109, 101, 58, 110, 97, 109, 101, 125, 47, 109, 97, 110, 105, 102, 101, 115, 116, 115, 47, 123, 114, 101, 102, 101, 114, 101, 110, 99, 101, 125, 40, 47, 41], [104, 97, 110, 100, 108, 101, 95, 109, 97, 110, 105, 102, 101, 115, 116, 95, 112, 117, 108, 108]), ([80, 79, 83, 84], [47, 118, 50, 47, 123, 42, 110, 97, 109, 101, 58, 110, 97, 109, 101, 125, 47, 98, 108, 111, 98, 115, 47, 117, 112, 108, 111, 97, 100, 115, 40, 47, 41], [104, 97, 110, 100, 108, 101, 95, 98, 108, 111, 98, 95, 112, 117, 115, 104, 95, 112, 111, 115, 116]), ([80, 85, 84], [47, 118, 50, 47, 123, 42, 110, 97, 109, 101, 58, 110, 97, 109, 101, 125, 47, 98, 108, 111, 98, 115, 47, 117, 112, 108, 111, 97, 100, 115, 47, 123, 114, 101, 102, 101, 114, 101, 110, 99, 101, 125, 40, 47, 41], [104, 97, 110, 100, 108, 101, 95, 98, 108, 111, 98, 95, 112, 117, 115, 104, 95, 112, 117, 116]), ([80, 85, 84], [47, 118, 50, 47, 123, 42, 110, 97, 109, 101, 58, 110, 97, 109, 101, 125, 47, 109, 97, 110, 105, 102, 101, 115, 116, 115, 47, 123, 114, 101, 102, 101, 114, 101, 110, 99, 101, 125, 40, 47, 41], [104, 97, 110, 100, 108, 101, 95, 109, 97, 110, 105, 102, 101, 115, 116, 95, 112, 117, 116]), ([71, 69, 84], [47, 118, 50, 47, 123, 42, 110, 97, 109, 101, 58, 110, 97, 109, 101, 125, 47, 116, 97, 103, 115, 47, 108, 105, 115, 116, 40, 47, 41], [104, 97, 110, 100, 108, 101, 95, 116, 97, 103, 115, 95, 103, 101, 116]), ([68, 69, 76, 69, 84, 69], [47, 118, 50, 47, 123, 42, 110, 97, 109, 101, 58, 110, 97, 109, 101, 125, 47, 109, 97, 110, 105, 102, 101, 115, 116, 115, 47, 123, 114, 101, 102, 101, 114, 101, 110, 99, 101, 125, 40, 47, 41], [104, 97, 110, 100, 108, 101, 95, 109, 97, 110, 105, 102, 101, 115, 116, 95, 100, 101, 108, 101, 116, 101]), ([68, 69, 76, 69, 84, 69], [47, 118, 50, 47, 123, 42, 110, 97, 109, 101, 58, 110, 97, 109, 101, 125, 47, 98, 108, 111, 98, 115, 47, 123, 100, 105, 103, 101, 115, 116, 125, 40, 47, 41], [104, 97, 110, 100, 108, 101, 95, 98, 108, 111, 98, 95, 100, 101, 108, 101, 116, 101])] := by decide
 
@@ -26,3 +38,53 @@ theorem C17_templates_accepted : Generated.ociRoutes.all (fun r => Accepts r.2.1
 theorem C17_search_is_walk_on_any_built_router (env : Env) (r : Router) (h : Reachable r) (url : Bytes) :
     r.search env url = (refWalk env url.length (Node.routes r.root) url []).map toMatch :=
   Router.search_eq_walk env r h url
+
+/-- generated obligation: every template of the example's table is one of the six shapes -/
+theorem C17_table_is_family :
+    Generated.ociRoutes.all (fun x => [OK.root, .blob, .manifest, .tags, .uploads, .uploadsRef].any (fun k => x.2.1 == k.template)) = true := by
+  decide
+
+/-- generated obligation: the blob template and the upload-start template are never registered under the same method -/
+theorem C17_methods_do_not_clash :
+    Generated.ociRoutes.all (fun x => Generated.ociRoutes.all (fun y =>
+      !(x.2.1 == OK.blob.template && y.2.1 == OK.uploads.template && x.1 == y.1))) = true := by
+  decide
+
+/-- the templates the example registers under method `m` -/
+def methodTemplates (m : Bytes) : List Bytes := (Generated.ociRoutes.filter (fun x => x.1 == m)).map (fun x => x.2.1)
+
+/-- **Every endpoint URL resolves to its handler's route**, for every acceptable repository name and last parameter. -/
+theorem C17_endpoint_resolves (env : Env) (m : Bytes) (r : Router) (L : List LiveT) (h : Live r L)
+    (hsub : ∀ lt ∈ L, lt.template ∈ methodTemplates m)
+    (lt : LiveT) (hlt : lt ∈ L) (k : OK) (hk : lt.template = k.template) (slash : Bool) (name last : Bytes)
+    (ha : OArgs env k name last) :
+    r.search env (opath k slash name last) = some ⟨k.template, some (k.exp slash).1, lt.data, ovs k name last⟩ := by
+  have inTable : ∀ lt ∈ L, ∃ x ∈ Generated.ociRoutes, x.1 = m ∧ x.2.1 = lt.template := by
+    intro lt hlt
+    have := hsub lt hlt
+    simp only [methodTemplates, List.mem_map, List.mem_filter, beq_iff_eq] at this
+    obtain ⟨x, ⟨hx, hm⟩, ht⟩ := this
+    exact ⟨x, hx, hm, ht⟩
+  apply oci_resolves env h ?_ ?_ lt hlt k hk slash name last ha
+  · intro lt hlt
+    obtain ⟨x, hx, _, ht⟩ := inTable lt hlt
+    have := List.all_eq_true.1 C17_table_is_family x hx
+    simp only [List.any_eq_true, beq_iff_eq] at this
+    obtain ⟨k, _, hk⟩ := this
+    exact ⟨k, by rw [← ht, hk]⟩
+  · intro lt hlt lt' hlt' h1 h2
+    obtain ⟨x, hx, hxm, hxt⟩ := inTable lt hlt
+    obtain ⟨y, hy, hym, hyt⟩ := inTable lt' hlt'
+    have := List.all_eq_true.1 (List.all_eq_true.1 C17_methods_do_not_clash x hx) y hy
+    simp only [Bool.not_eq_true', Bool.and_eq_false_iff, beq_eq_false_iff_ne] at this
+    rcases this with (h | h) | h
+    · exact h (by rw [hxt, h1])
+    · exact h (by rw [hyt, h2])
+    · exact h (by rw [hxm, hym])
+
+/-- non-vacuity: the GET table of the example can be built through the API, and on it every blob-pull URL resolves -/
+theorem C17_get_router_exists (env : Env) (d0 d1 d2 d3 : Nat) :
+    ∃ r L, Live r L ∧ ∀ (slash : Bool) (name digest : Bytes), OArgs env .blob name digest →
+      r.search env (opath .blob slash name digest) =
+        some ⟨OK.blob.template, some (OK.blob.exp slash).1, d1, [(lN.name, name), (lD.name, digest)]⟩ :=
+  oci_get_blob_pull env d0 d1 d2 d3
